@@ -723,9 +723,13 @@ impl<D: Data<Elem = A>, A: Float + LinalgScalar> AffFuncBase<PolytopeT, D> {
     /// Tests whether the input ``point`` lies inside this polytope or not.
     #[inline]
     pub fn contains<S: Data<Elem = A>>(&self, point: &ArrayBase<S, Ix1>) -> bool {
-        self.distance_raw(point)
-            .into_iter()
-            .all(|x| x >= A::from(-1e-8).unwrap())
+        // a vector with an infinite coordinate is no point of the space: without this test
+        // a row whose product with it is -inf would count as satisfied
+        point.iter().all(|x| x.is_finite())
+            && self
+                .distance_raw(point)
+                .into_iter()
+                .all(|x| x >= A::from(-1e-8).unwrap())
     }
 }
 
